@@ -12,6 +12,9 @@
 
 use super::DeferredBeneficiaryReward;
 use crate::{TxId, TxVersion, account::FinalizedAccount};
+#[cfg(grevm_verif)]
+use grevm_verif_rt::sync::RwLock;
+#[cfg(not(grevm_verif))]
 use parking_lot::RwLock;
 use revm_state::{Account, AccountInfo};
 
